@@ -371,8 +371,43 @@ func (api *API) decodeArray(ctx context.Context, b []byte, value reflect.Value, 
 		return deseri.Done()
 	}
 
-	// if it is an array of objects, handle the array like a slice
-	return api.decodeSlice(ctx, b, sliceValue, sliceValueType, ts, opts)
+	// if it is an array of objects, handle the array like a slice,
+	// but decode the elements directly into the (addressable) array
+	// and make sure that the encoded count matches the array length.
+	arrayLen := value.Len()
+	elemType := value.Type().Elem()
+	elemsRead := 0
+	deserializeItem := func(b []byte) (bytesRead int, err error) {
+		if elemsRead >= arrayLen {
+			return 0, ierrors.Errorf("more elements than the array length %d", arrayLen)
+		}
+		elemValue := reflect.New(elemType).Elem()
+		bytesRead, err = api.decode(ctx, b, elemValue, TypeSettings{}, opts)
+		if err != nil {
+			return 0, ierrors.WithStack(err)
+		}
+		value.Index(elemsRead).Set(elemValue)
+		elemsRead++
+
+		return bytesRead, nil
+	}
+
+	bytesRead, err := api.decodeSequence(b, deserializeItem, value.Type(), ts, opts)
+	if err != nil {
+		return bytesRead, err
+	}
+
+	if elemsRead != arrayLen {
+		return 0, ierrors.Errorf("encoded element count %d does not match the array length %d", elemsRead, arrayLen)
+	}
+
+	if opts.validation {
+		if err := api.checkArrayMustOccur(sliceFromArray(value), ts); err != nil {
+			return bytesRead, ierrors.Wrapf(err, "can't deserialize '%s' type", value.Kind())
+		}
+	}
+
+	return bytesRead, nil
 }
 
 func (api *API) decodeSlice(ctx context.Context, b []byte, value reflect.Value,
